@@ -136,6 +136,8 @@ enum Probe {
     PR__COUNT
 };
 const char *probe_name(int i);
+// straight.cpp (compiled at -O2 without the step-clock instrumentation, see there): returns an empty string or what went wrong
+std::string straight_line_run(int elem_type, uint32_t a, uint32_t b, uint32_t d);
 
 enum ExcKind { EX_NONE = 0, EX_BAD_ALLOC, EX_UNICODE, EX_CODEC, EX_BAD_FORMAT, EX_OUT_OF_RANGE, EX_INVALID_ARG, EX_OTHER };
 const char *exc_name(int e);
